@@ -377,3 +377,124 @@ def siblings(ctx, prog, ev, hier):
     ctx.ob("C13-D4/SYM", ok, be.site(), "both sides derive the key with scrypt(secret, salt=iv, n, r, p) — the reader from the header fields", func=be.fi.qualname)
     ks = [k.value for c in ctx.fa(f"{CR}.scrypt").calls(name="Scrypt") for k in c.keywords if k.arg == "length"]
     ctx.ob("C13-D4/CONST", len(ks) == 1 and is_const(ks[0], 32), sc.site(), "scrypt derives a 32-byte (AES-256) key", func=sc.qualname)
+
+
+_base_check_c13 = check
+
+
+def check(ctx):            # noqa: F811  (extends the rules above)
+    _base_check_c13(ctx)
+    roundtrip(ctx, ctx.prog)
+
+
+def roundtrip(ctx, prog):
+    """the completeness half of the round trip: every secret that exists is written / restored, under exactly the functions' own tests;
+    state flags change unconditionally on the success path"""
+    import ast
+    from ..astutil import norm_text, dotted
+    from .. import rules as R
+    AC = "lbry.wallet.account.Account"
+    W = "lbry.wallet.wallet.Wallet"
+    td = ctx.fa(f"{AC}.to_dict")
+    pw, ick = td.fi.params()[1:3]
+    vocab = ["self.encrypted", pw, "self.private_key", "private_key_string", "seed", ick]
+    R.effect_table(ctx, "C13-D5/COMPLETE", td, vocab, [
+        ("private_key_string, seed = (self.private_key_string, self.seed)", "", "the stored forms (ciphertext of a locked account, or the plain seed) are the starting point"),
+        ("private_key_string = self.private_key.extended_key_string()", "not self.encrypted and self.private_key", "an unlocked account's private key is serialised from the key object"),
+        (f"private_key_string = aes_encrypt({pw}, private_key_string, self.get_init_vector('private_key'))", f"not self.encrypted and {pw} and private_key_string",
+         "with a password, an existing private key is written as its ciphertext"),
+        (f"seed = aes_encrypt({pw}, self.seed, self.get_init_vector('seed'))", f"not self.encrypted and {pw} and seed", "with a password, an existing seed is written as its ciphertext"),
+        ("d['certificates'] = self.channel_keys", ick, "channel keys are included when asked for"),
+        ("return d", "", "the dict is returned"),
+    ], "account → dict: ")
+    ds = [x for x in td.stmts(ast.Assign) if any(dotted(t) == "d" for t in x.targets) and isinstance(x.value, ast.Dict)]
+    ent = {k.value: norm_text(v) for x in ds for k, v in zip(x.value.keys, x.value.values) if isinstance(k, ast.Constant)}
+    ok = len(ds) == 1 and ent.get("seed") == "seed" and ent.get("private_key") == "private_key_string" and ent.get("encrypted") == f"bool(self.encrypted or {pw})" and \
+        ent.get("public_key") == "self.public_key.extended_key_string()" and ent.get("address_generator") == "self.address_generator.to_dict(self.receiving, self.change)"
+    ctx.ob("C13-D5/COMPLETE", ok, td.site(), "account → dict: seed, private key, encrypted flag, public key and address generator go under their own keys", func=td.fi.qualname, key="C13-D5/COMPLETE|dict-keys")
+    dc = ctx.fa(f"{AC}.decrypt")
+    pw = dc.fi.params()[1]
+    R.effect_table(ctx, "C13-D5/COMPLETE", dc, ["self.encrypted"], [
+        (f"seed = self._decrypt_seed({pw})", "", "the seed is decrypted with the password"),
+        (f"private_key = self._decrypt_private_key_string({pw})", "", "the private key is decrypted with the password"),
+        ("self.seed = seed", "", "success: the plaintext seed is restored"),
+        ("self.private_key = private_key", "", "success: the private key object is restored"),
+        ("self.private_key_string = ''", "", "success: the ciphertext is dropped"),
+        ("self.encrypted = False", "", "success: the account is flagged unlocked"),
+        ("return True", "", "success is reported"),
+    ], "account unlock: ")
+    rf = [r for r in dc.stmts(ast.Return) if norm_text(r) == "return False"]
+    ok = len(rf) == 2 and all(R.in_handler(r, dc) is not None for r in rf)
+    ctx.ob("C13-D5/COMPLETE", ok, dc.site(), "account unlock: failure is reported only from the two decryption handlers", func=dc.fi.qualname)
+    en = ctx.fa(f"{AC}.encrypt")
+    pw = en.fi.params()[1]
+    R.effect_table(ctx, "C13-D5/COMPLETE", en, ["self.encrypted", "self.seed", "isinstance(self.private_key, PrivateKey)"], [
+        (f"self.seed = aes_encrypt({pw}, self.seed, self.get_init_vector('seed'))", "self.seed", "an existing seed is replaced by its ciphertext"),
+        (f"self.private_key_string = aes_encrypt({pw}, self.private_key.extended_key_string(), self.get_init_vector('private_key'))", "isinstance(self.private_key, PrivateKey)",
+         "an existing private key is kept as ciphertext"),
+        ("self.private_key = None", "isinstance(self.private_key, PrivateKey)", "…and its object dropped"),
+        ("self.encrypted = True", "", "the account is flagged locked"),
+        ("return True", "", "success is reported"),
+    ], "account lock: ")
+    dp = ctx.fa(f"{AC}._decrypt_private_key_string")
+    pw = dp.fi.params()[1]
+    R.effect_table(ctx, "C13-D5/COMPLETE", dp, ["self.private_key_string", "private_key_string"], [
+        ("return None", "not self.private_key_string", "no stored ciphertext: no private key (watch-only account)", 0),
+        (f"private_key_string, self.init_vectors['private_key'] = aes_decrypt({pw}, self.private_key_string)", "self.private_key_string", "the stored ciphertext is decrypted with the password (iv remembered)"),
+        ("return from_extended_key_string(self.ledger, private_key_string)", "self.private_key_string and private_key_string", "the plaintext is parsed back into a key object"),
+    ], "private key restore: ")
+    dsd = ctx.fa(f"{AC}._decrypt_seed")
+    pw = dsd.fi.params()[1]
+    R.effect_table(ctx, "C13-D5/COMPLETE", dsd, ["self.seed", "seed"], [
+        ("return ''", "not self.seed", "no stored seed: empty seed", 0),
+        (f"seed, self.init_vectors['seed'] = aes_decrypt({pw}, self.seed)", "self.seed", "the stored ciphertext is decrypted with the password (iv remembered)"),
+        ("Mnemonic().mnemonic_decode(seed)", "self.seed and seed", "the plaintext must decode as a mnemonic (a wrong password that happens to unpad is caught here)"),
+        ("return seed", "self.seed and seed", "the plaintext seed is returned"),
+    ], "seed restore: ")
+    hs = [h for t_ in dsd.stmts(ast.Try) for h in t_.handlers]
+    ok = len(hs) == 1 and isinstance(hs[0].body[-1], ast.Raise) and "ValueError" in norm_text(hs[0].body[-1])
+    ctx.ob("C13-D5/COMPLETE", ok, dsd.site(), "seed restore: a seed that does not decode raises ValueError (which Account.decrypt turns into False)", func=dsd.fi.qualname)
+    ad = ctx.fa("lbry.crypto.crypt.aes_decrypt")
+    r = [x for x in ad.stmts(ast.Return)]
+    ok = len(r) == 1 and norm_text(r[0].value) == "(result.decode(), init_vector)" and ad.path([ad.cfg.entry], [ad.cfg.exit], avoid=lambda n: n.kind in ("return",), include_exc=True) is None
+    ctx.ob("C13-D5/COMPLETE", ok, ad.site(), "aes_decrypt returns (plaintext, iv) or raises — no path returns None", func=ad.fi.qualname, key="C13-D5/COMPLETE|aes_decrypt-returns")
+    ae = ctx.fa("lbry.crypto.crypt.aes_encrypt")
+    iv = ae.fi.params()[2]
+    R.effect_table(ctx, "C13-D5/COMPLETE", ae, [f"{iv} is not None"], [
+        (f"{iv} = os.urandom(16)", f"{iv} is None", "a fresh random iv is drawn exactly when none was given"),
+        (f"return base64.b64encode({iv} + encrypted_data).decode()", "", "the result is base64(iv ‖ ciphertext) — the layout aes_decrypt splits at 16"),
+    ], "aes_encrypt: ")
+    # wallet level
+    ul = ctx.fa(f"{W}.unlock")
+    pw = ul.fi.params()[1]
+    R.effect_table(ctx, "C13-D5/COMPLETE", ul, ["account.encrypted", f"account.decrypt({pw})"], [
+        ("return False", f"account.encrypted and not account.decrypt({pw})", "a failing account stops the unlock"),
+        (f"self.encryption_password = {pw}", "", "after all accounts unlocked the password is recorded"),
+        ("return True", "", "…and success reported"),
+    ], "wallet unlock: ")
+    lk = ctx.fa(f"{W}.lock")
+    R.effect_table(ctx, "C13-D5/COMPLETE", lk, ["account.encrypted", "self.encryption_password is not None"], [
+        ("account.encrypt(self.encryption_password)", "not account.encrypted", "every unlocked account is locked with the recorded password"),
+    ], "wallet lock: ")
+    we = ctx.fa(f"{W}.encrypt")
+    pw = we.fi.params()[1]
+    R.effect_table(ctx, "C13-D5/COMPLETE", we, ["self.is_locked", pw], [
+        (f"self.encryption_password = {pw}", "", "the password is recorded"),
+        ("self.preferences[ENCRYPT_ON_DISK] = True", "", "encrypt-on-disk is switched on"),
+        ("self.save()", "", "…and the wallet saved (as ciphertext) at once"),
+    ], "wallet encrypt: ")
+    sv = ctx.fa(f"{W}.save")
+    R.effect_table(ctx, "C13-D5/COMPLETE", sv, ["self.preferences.get(ENCRYPT_ON_DISK, False)", "self.encryption_password is not None", "self.is_locked"], [
+        ("return self.storage.write(self.to_dict(encrypt_password=self.encryption_password))", "self.preferences.get(ENCRYPT_ON_DISK, False) and self.encryption_password is not None",
+         "with encrypt-on-disk and a password, the encrypted form is what is written"),
+        ("return self.storage.write(self.to_dict())", "", "otherwise the current state is written"),
+    ], "wallet save: ")
+    il = ctx.fa(f"{W}.is_locked")
+    R.effect_table(ctx, "C13-D5/COMPLETE", il, ["account.encrypted"], [
+        ("return True", "account.encrypted", "locked = some account is encrypted"),
+        ("return False", "", "…else unlocked"),
+    ], "wallet: ")
+    ws = ctx.fa("lbry.wallet.wallet.WalletStorage.write")
+    R.effect_table(ctx, "C13-D5/COMPLETE", ws, ["self.path is None", "os.path.exists(self.path)"], [
+        ("return json_data", "self.path is None", "a storage without path only serialises"),
+    ], "storage: ")
